@@ -818,6 +818,14 @@ class LangServer:
             )
             return var
         curr_scope = def_file.ast.get_inner_scope(def_line + 1)
+        # The name after `=>` in a USE statement (`use m, only: loc => name`)
+        # is a name of that module, whatever this scope calls `name`
+        use_match = FRegex.USE.match(line_prefix)
+        if use_match and re.search(r"=>[ ]*[\w$]*$", line_prefix):
+            mod_name = use_match.group(2).lower()
+            if mod_name not in self.obj_tree:
+                return None
+            return find_in_scope(self.obj_tree[mod_name][0], def_name, self.obj_tree)
         # Traverse type tree if necessary
         if is_member:
             type_scope = climb_type_tree(var_stack, curr_scope, self.obj_tree)
